@@ -1,3 +1,5 @@
+import FM.Generated.Patterns
+import FM.Model.PatternBaseline
 import FM.Lemmas.Sentence
 /-
   C11 — Semantic line breaks fall at sentence ends and keep edits local.
@@ -137,5 +139,10 @@ example :
        ("long".toList, false), ("enough".toList, false), ("here.".toList, true),
        ("End.".toList, true)]).map joinSp
     = ["Go on. This is long".toList, "enough here.".toList, "End.".toList] := by decide
+
+
+/-- PATTERNS_AS_MODELLED: the regular expressions of the source files this property's models were written against
+(regenerated from /repo's working tree on every run by harness/translate_patterns.py) are the recorded ones. -/
+theorem PATTERNS_AS_MODELLED : FM.Gen.patterns_C11 = FM.Baseline.patterns_C11 := by decide
 
 end FM.C11
